@@ -79,6 +79,8 @@ type intraProxyStreamSender struct {
 	sourceShardID      history.ClusterShardID
 	streamID           string
 	sourceStreamServer adminservice.AdminService_StreamWorkflowReplicationMessagesServer
+	// shutdown ends the stream this sender serves (set by Run before the sender is registered)
+	shutdown channel.ShutdownOnce
 }
 
 func (s *intraProxyStreamSender) Run(
@@ -97,6 +99,7 @@ func (s *intraProxyStreamSender) Run(
 	defer st.UnregisterStream(s.streamID)
 
 	s.sourceStreamServer = sourceStreamServer
+	s.shutdown = shutdownChan
 
 	// register this sender so sendMessages can use it
 	s.shardManager.GetIntraProxyManager().RegisterSender(s.peerNodeName, s.targetShardID, s.sourceShardID, s)
@@ -821,6 +824,12 @@ func (m *intraProxyManager) closePeerShardLocked(peer string, ps *peerState, key
 	st := GetGlobalStreamTracker()
 	srvID := BuildIntraProxySenderStreamID(peer, key.targetShard, key.sourceShard)
 	st.UnregisterStream(srvID)
+	if snd, ok := ps.senders[key]; ok && snd != nil && snd.shutdown != nil {
+		// End the peer's stream as well. A sender registers only once, when its stream opens: a stream that stayed
+		// open without a registered sender could never be used again, and the peer, seeing it healthy, would never
+		// replace it. Once it ends the peer re-establishes it if the pair is (still or again) wanted.
+		snd.shutdown.Shutdown()
+	}
 	delete(ps.senders, key)
 }
 
